@@ -1,6 +1,6 @@
 (* Harness side of C16: the quiescent footprint after N and after 4N seeds. *)
 From Coq Require Import ZArith.
-From ZenoV Require Import Lib.Harness.
+From ZenoV Require Import Lib.Harness Pipe.LogFile.
 Open Scope Z_scope.
 
 Record fobs := FO {
@@ -11,18 +11,24 @@ Record fobs := FO {
   f_temps : Z;           (* files in the WARC temp directory *)
   f_buckets : Z;         (* per-host limiter table size (-1: limiter off) *)
   f_maxb : Z;            (* its configured bound: workers x per-worker asset concurrency *)
-  f_fds : Z;
-  f_goroutines : Z
+  f_fds : Z;             (* /proc/self/fd entries (0 in proxied runs: the harness's own proxy lives in the same process) *)
+  f_goroutines : Z;
+  f_files : Z;           (* ... of which: everything that is not a socket or a pipe (log files, WARC files, spooled
+                            temp files, the queue's and the seen-store's databases, other files) - counted in proxied runs too *)
+  f_logfds : Z           (* ... of which: descriptors on files of the job's log directory *)
 }.
 
-Record fcase := FC { fc_w : Z; fc_mca : Z; fc_n : Z; fc_rl : bool; fc_a : fobs; fc_b : fobs }.
+Record fcase := FC { fc_w : Z; fc_mca : Z; fc_n : Z; fc_rl : bool; fc_log : bool; fc_a : fobs; fc_b : fobs }.
 
 (* what the models say about a quiescent state, whatever the number of seeds:
    PipeProofs.pipeline_quiescent: table empty, no token in use;
    Stage/Bodies: no node holds a body after post-processing;
-   Rate/ManagerProofs: the limiter table never exceeds its bound = W x MCA *)
+   Rate/ManagerProofs: the limiter table never exceeds its bound = W x MCA;
+   Pipe/LogFileProofs: with file logging on, the rotated log file holds what it held when it was created (one
+   descriptor), however many rotations went by; without file logging there is none *)
+Definition log_bound (c : fcase) : Z := if fc_log c then Z.of_N (open_count (new_rfile rotate 0)) else 0.
 Definition idle (c : fcase) (o : fobs) : bool :=
-  (f_table o =? 0) && (f_tokens o =? 0) && (f_bodies o =? 0) && (f_temps o =? 0)
+  (f_table o =? 0) && (f_tokens o =? 0) && (f_bodies o =? 0) && (f_temps o =? 0) && (f_logfds o <=? log_bound c)
   && (if fc_rl c then (0 <=? f_buckets o) && (f_buckets o <=? f_maxb o) && (f_maxb o =? fc_w c * fc_mca c)
       else f_buckets o =? -1).
 
@@ -40,5 +46,14 @@ Definition mon_table_bounded (c : fcase) : bool := both c (fun o => f_buckets o 
 Definition mon_no_growth (c : fcase) : bool :=
   negb (f_ok (fc_a c) && f_ok (fc_b c)) ||
   ((f_fds (fc_b c) <=? f_fds (fc_a c) + 3) && (f_goroutines (fc_b c) <=? f_goroutines (fc_a c) + 4)).
+(* descriptors on FILES (everything but sockets and pipes) do not grow at all: no keep-alive connection is among them; one
+   is tolerated because the reading may fall between the close and the open of a log rotation.  Proxied runs take part. *)
+Definition mon_files_no_growth (c : fcase) : bool :=
+  negb (f_ok (fc_a c) && f_ok (fc_b c)) || (f_files (fc_b c) <=? f_files (fc_a c) + 1).
+(* the statement of C16_log_file_holds_one_descriptor on the observed descriptor table: at most one descriptor on the
+   log directory with file logging on (whatever the rotation period and the length of the run), none without *)
+Definition mon_log_one_descriptor (c : fcase) : bool :=
+  both c (fun o => f_logfds o <=? (if fc_log c then 1 else 0)).
 Definition mons (l : list fcase) :=
-  mon_idx [mon_runs_complete; mon_reactor_idle; mon_no_body_left; mon_table_bounded; mon_no_growth] l.
+  mon_idx [mon_runs_complete; mon_reactor_idle; mon_no_body_left; mon_table_bounded; mon_no_growth;
+           mon_files_no_growth; mon_log_one_descriptor] l.
